@@ -589,8 +589,8 @@ def unionSel (clss : List (Option JClass)) (hasNone : Bool) (ms : List Meth) : M
     match (clss.zip ms).find? (fun p => p.1 != some .null) with
     | some (_, m) => .optional m
     | Option.none => .fail "StopIteration"      -- `next(...)` over an empty generator
-  else if (dedupCls known).length == ms.length then
-    -- `dict(zip(classes, methods))`
+  else if (dedupCls known).length == ms.length && !known.contains .float then
+    -- `dict(zip(classes, methods))`; not used when an alternative is `float`, which also accepts `int` data
     .unionByType (known.zip ms)
   else .union ms
 
